@@ -15,6 +15,10 @@ func Verif_Step_sack_arb() {
 	d, sink, src, _, target, min, m := vSetup()
 	P := V.Bytes("P", L)
 	N.BoundArb4(P)
+	if V.ParamInt("tcponly", 0) == 1 && L >= 20 {
+		// only TCP segments behind an option-less IPv4 header (the option area of the segment stays arbitrary)
+		V.Assume(V.All(P[0] == 0x45, P[9] == 6))
+	}
 	V.ClockAdvance(time.Duration(V.U32("flight"))) // the reply arrives an arbitrary time after the last send
 	src.Next = append([]byte(nil), P...)
 	resp, err := d.ReceiveProbe(100 * time.Millisecond)
@@ -23,12 +27,13 @@ func Verif_Step_sack_arb() {
 		// that must surface as NotSupportedError (prefer_sack falls back on it), not be skipped as noise
 		var ns0 *NotSupportedError
 		doff := int(P[32] >> 4)
-		_, hasSack := uint32(0), false
+		_, hasSack, optsOK := uint32(0), false, true
 		if doff > 5 && 20+doff*4 <= L {
 			_, hasSack = vMinSack(P[40:20+V.Concretize(doff)*4], d.state.localInitSeq)
+			optsOK = vOptsOK(P[40 : 20+V.Concretize(doff)*4])
 		}
 		tl := int(N.BE16(P[2:4])) // declared total length: must cover the TCP header (0 = TSO, gopacket takes the buffer length)
-		plainAck := V.All(P[0]&0xf == 5, P[6]&0x3f == 0, P[7] == 0, V.Any(tl == 0, tl >= 20+doff*4), doff >= 5, 20+doff*4 <= L, vOnTuple(P, sink.Pkts[0]), P[33]&0x07 == 0, !hasSack)
+		plainAck := V.All(P[0]&0xf == 5, P[6]&0x3f == 0, P[7] == 0, V.Any(tl == 0, tl >= 20+doff*4), doff >= 5, 20+doff*4 <= L, vOnTuple(P, sink.Pkts[0]), P[33]&0x07 == 0, !hasSack, optsOK)
 		V.Assert(V.Implies(plainAck, V.All(err != nil, errors.As(err, &ns0))), "C20/ack-without-sack-blocks-is-unsupported")
 	}
 	if err != nil {
